@@ -239,7 +239,7 @@ CG_COVER = {
     "tlexport.checksums.ones_complement_checksum": "cksum.ones_complement",
     "tlexport.dpkt_dsb.Reader.__init__": "container.reader", "tlexport.keylog_reader.Key.__init__": "keylog.any_line_is_safe",
     "tlexport.keylog_reader.get_key_from_line": "keylog.any_line_is_safe", "tlexport.keylog_reader.get_keys_from_string": "keylog.unbounded.file_text",
-    "tlexport.keylog_reader.read_keylog_from_file": "assumed: exits the process when the -s file does not exist (documented behaviour), otherwise get_keys_from_string",
+    "tlexport.keylog_reader.read_keylog_from_file": "keylog.read_file",
     "tlexport.log.set_logger": "log:", "tlexport.log.LogFilter.__init__": "log:", "tlexport.packet.Packet.get_params": "log:",
     "tlexport.packet.Packet.__init__": "assumed: dpkt.ethernet.Ethernet(buf) may raise on a truncated frame - NOT covered (dpkt's parser; the capture is assumed to hold whole frames)",
     "tlexport.output_builder.OutputBuilder.__init__": "ports.builder_init", "tlexport.output_builder.OutputBuilder.build": "tcp_out.build",
